@@ -33,7 +33,7 @@ type c15Config struct {
 	N        int    `json:"stack_size"`
 	R        int    `json:"recovery_position"`
 	P        int    `json:"panic_position"`
-	Phase    string `json:"phase"`        // before-write | after-status | after-body | after-next | unresolved-dependency
+	Phase    string `json:"phase"`        // before-write | after-status | after-body | after-next | after-next-unanswered (the rest of the chain ran to its end and wrote nothing) | unresolved-dependency | ...
 	Between  int    `json:"between_mask"` // bit i set: the i-th handler between Recovery and the panic calls Next() itself
 	Value    string `json:"panic_value"`  // string | error | runtime | struct | abort
 	Style    string `json:"registration"` // use | route | group
@@ -136,7 +136,7 @@ func c15Build(c c15Config) *c15World {
 					ctx.ResponseWriter().WriteHeader(201)
 				case "after-body":
 					_, _ = ctx.ResponseWriter().Write([]byte("partial"))
-				case "after-next":
+				case "after-next", "after-next-unanswered":
 					ctx.Next()
 				case "after-failed-hijack-and-push":
 					// capabilities the underlying writer does not have: the calls fail and send nothing
@@ -170,6 +170,9 @@ func c15Build(c c15Config) *c15World {
 		default:
 			return func(ctx flamego.Context) {
 				w.events = append(w.events, fmt.Sprintf("tail%d", i))
+				if c.Phase == "after-next-unanswered" && ctx.Request().URL.Path == "/p" {
+					return // nobody answers this request: the chain runs to its end with nothing written
+				}
 				_, _ = ctx.ResponseWriter().Write([]byte("ok"))
 			}
 		}
@@ -180,6 +183,9 @@ func c15Build(c c15Config) *c15World {
 	}
 	final := func(ctx flamego.Context) {
 		w.events = append(w.events, "final")
+		if c.Phase == "after-next-unanswered" && ctx.Request().URL.Path == "/p" {
+			return
+		}
 		if !ctx.ResponseWriter().Written() {
 			_, _ = ctx.ResponseWriter().Write([]byte("final"))
 		}
@@ -400,7 +406,7 @@ func c15Configs(thorough bool) []c15Config {
 	if thorough {
 		maxN = 5
 	}
-	phases := []string{"before-write", "after-status", "after-body", "after-next", "unresolved-dependency", "after-failed-hijack-and-push", "after-flush", "deep-recursion"}
+	phases := []string{"before-write", "after-status", "after-body", "after-next", "unresolved-dependency", "after-failed-hijack-and-push", "after-flush", "deep-recursion", "after-next-unanswered"}
 	values := []string{"string", "error", "runtime", "struct", "abort", "nil-error-pointer", "panicking-stringer"}
 	styles := []string{"use", "route", "group", "use-action", "route-action"}
 	for n := 2; n <= maxN; n++ {
@@ -412,7 +418,7 @@ func c15Configs(thorough bool) []c15Config {
 							if ph == "unresolved-dependency" && v != "string" {
 								continue
 							}
-							if (ph == "after-failed-hijack-and-push" || ph == "after-flush" || ph == "deep-recursion") && v != "string" && v != "runtime" && !thorough {
+							if (ph == "after-failed-hijack-and-push" || ph == "after-flush" || ph == "deep-recursion" || ph == "after-next-unanswered") && v != "string" && v != "runtime" && !thorough {
 								continue
 							}
 							for _, st := range styles {
